@@ -66,8 +66,14 @@ def run(ctx):
 
 def build(ctx, e2e, rng, i, case_id, inside=True, ntv=None):
     system = laue.SYSTEMS[i % 9]
-    ds = WF.gen_dataset(rng, system=system, nq=int(rng.integers(1, 4)), natoms=int(rng.integers(1, 4)), components="needed")
-    cfg = WF.gen_settings(rng, ds, interpolator="lsq_poly", nt=int(rng.integers(2, 8)), ntv=ntv or int(rng.integers(8, 61)))
+    # E(V) that no cubic in finite strain reproduces for half of the data sets; the QHA layer's EoS order is the documented
+    # `order` (any number >= 2), and every sixth data set is a static-only run (no vibrational free energy in the QHA layer)
+    ds = WF.gen_dataset(rng, system=system, nq=int(rng.integers(1, 4)), natoms=int(rng.integers(1, 4)), components="needed",
+                        energy_class="noncubic" if i % 2 else "bm3", nv=int(rng.integers(7, 13)) if i % 2 else None)
+    cfg = WF.gen_settings(rng, ds, interpolator="lsq_poly", nt=int(rng.integers(2, 8)), ntv=ntv or int(rng.integers(8, 61)),
+                          eos_order=[3, 4, 3, 5, 3, 2][i % 6] if ds.nv > 6 else 3)
+    if i % 6 == 5:
+        cfg["qha"]["settings"]["static_only"] = True
     wd = e2e.workdir(case_id)
     WF.write_dataset(ds, cfg, wd)
     p_lo, p_hi, _ = WF.probe_pressure_range(ds, cfg, wd)
@@ -96,7 +102,8 @@ def _conversions(ctx, e2e):
         path = WF.write_dataset(ds, cfg, wd)
         calc, exc = e2e.run(path, case_id)
         qs = cfg["qha"]["settings"]
-        sample = {"system": ds.system, "NT": qs["NT"], "NTV": qs["NTV"], "P_MIN": qs["P_MIN"], "DELTA_P": qs["DELTA_P"], "computed_range_gpa": [p_lo, p_hi]}
+        sample = {"system": ds.system, "NT": qs["NT"], "NTV": qs["NTV"], "P_MIN": qs["P_MIN"], "DELTA_P": qs["DELTA_P"], "computed_range_gpa": [p_lo, p_hi],
+                  "eos_order": qs["order"], "static_only": qs["static_only"], "E(V)": ds.energy_class}
         if exc is not None:
             ctx.evaluation("conversion-run", (i,), sample=sample)
             e2e.report_construction_failure(exc, case_id, "in-range-pressures", {"config": cfg})
